@@ -8,7 +8,7 @@
           write_bytes_be, write_string's 19-digit chunk loop). Every one of these is run against the real member
           function word for word in the correspondence stream `bigint-limbs` (operands and results as sign + hex words).
   Proved: integer parse/print exactness incl. both 64-bit boundaries; exactness of bigint addition, subtraction,
-          reduce; DDproduct = the 128-bit product (high word ≤ 2^64-2); *= word and *= bigint exact (all exits);
+          reduce, compare, also with signs (on reduced operands; results reduced); DDproduct = the 128-bit product (high word ≤ 2^64-2); *= word and *= bigint exact (all exits);
           <<= is ·2^k, >>= is ⌊|·|/2^k⌋; decimal text → bigint exact and total on digit strings, none otherwise;
           from_bytes_be / write_bytes_be are the big-endian base-256 value, and round-trip; divide by a one-word
           denominator exact on the modelled exits; write_string ∘ string constructor = identity on the integer
@@ -23,6 +23,7 @@ import JV.Proofs.BigIntMul
 import JV.Proofs.BigIntShift
 import JV.Proofs.BigIntRadix
 import JV.Proofs.BigIntPrint
+import JV.Proofs.BigIntSigned
 namespace JV.Props.C04
 open JV Model
 
@@ -86,6 +87,22 @@ theorem bigint_sub_exact (x y : List Nat) (hx : BigInt.Words x) (hy : BigInt.Wor
 /-- `reduce()` does not change the value -/
 theorem bigint_reduce_exact (xs : List Nat) : BigInt.val (BigInt.stripHigh xs) = BigInt.val xs :=
   BigInt.stripHigh_val xs
+
+/-- `compare` (by length, then from the top word down; signs first) orders reduced values as integers -/
+theorem bigint_compare_exact (a b : BigInt.Big) (ha : BigInt.Normal a.mag) (hb : BigInt.Normal b.mag) :
+    (BigInt.compare a b > 0 ↔ BigInt.toInt a > BigInt.toInt b) ∧ (BigInt.compare a b < 0 ↔ BigInt.toInt a < BigInt.toInt b) :=
+  BigInt.compare_toInt a b ha hb
+
+/-- `operator+=` with signs (equal signs: add magnitudes; else subtract the smaller magnitude from the larger,
+    swapping through `-(y - *this)`) is integer addition, and the result is reduced -/
+theorem bigint_add_signed (a b : BigInt.Big) (ha : BigInt.Normal a.mag) (hb : BigInt.Normal b.mag) :
+    BigInt.toInt (BigInt.add 4 a b) = BigInt.toInt a + BigInt.toInt b ∧ BigInt.Normal (BigInt.add 4 a b).mag :=
+  BigInt.add_toInt a b ha hb
+
+/-- `operator-=` with signs is integer subtraction, and the result is reduced -/
+theorem bigint_sub_signed (a b : BigInt.Big) (ha : BigInt.Normal a.mag) (hb : BigInt.Normal b.mag) :
+    BigInt.toInt (BigInt.sub 4 a b) = BigInt.toInt a - BigInt.toInt b ∧ BigInt.Normal (BigInt.sub 4 a b).mag :=
+  BigInt.sub_toInt a b ha hb
 
 /-- `DDproduct` (32-bit half-word products with two carry tests) is the exact 128-bit product, and its
     high word never exceeds 2^64 - 2 — the fact the multiplication loops silently rely on -/
@@ -198,5 +215,7 @@ example : BigInt.divWord [6, 7] 3 = some ([6148914691236517207, 2], [1]) := by d
 -- -(2^64 - 1) prints as "-18446744073709551615": two chunks, the first padded to 19 digits
 example : BigInt.toDecimal BigInt.div19Word { neg := true, mag := [BigInt.B - 1] } =
     [45, 49, 56, 52, 52, 54, 55, 52, 52, 48, 55, 51, 55, 48, 57, 53, 53, 49, 54, 49, 53] := by decide
+example : BigInt.add 4 { neg := true, mag := [0, 1] } { neg := false, mag := [1] } = { neg := true, mag := [BigInt.B - 1] } := by decide
+example : BigInt.sub 4 { neg := false, mag := [1] } { neg := false, mag := [0, 1] } = { neg := true, mag := [BigInt.B - 1] } := by decide
 
 end JV.Props.C04
